@@ -114,6 +114,12 @@ func (i *Indexer) initBlocks() error {
 
 func (i *Indexer) Notify(_ context.Context, blk *chain.ExecutedBlock) error {
 	i.mu.Lock()
+	if i.lastHeight != math.MaxUint64 && blk.Block.Hght < i.lastHeight && i.lastHeight-blk.Block.Hght >= i.blockWindow {
+		// An older accepted block delivered again (ie. blocks re-processed after a
+		// restart) that is already outside of the retention window.
+		i.mu.Unlock()
+		return nil
+	}
 	consecutive := i.lastHeight == math.MaxUint64 || blk.Block.Hght == i.lastHeight+1
 	i.insertBlockIntoCache(blk)
 	i.mu.Unlock()
@@ -164,7 +170,10 @@ func (i *Indexer) insertBlockIntoCache(blk *chain.ExecutedBlock) {
 			index:     idx,
 		}
 	}
-	i.lastHeight = blk.Block.Hght
+	// An older block that is delivered again must not move the latest block backwards.
+	if i.lastHeight == math.MaxUint64 || blk.Block.Hght > i.lastHeight {
+		i.lastHeight = blk.Block.Hght
+	}
 }
 
 // storeBlock persist the given block to the database, and deletes a block
